@@ -725,6 +725,10 @@ def gen_store(pid, tier, seed, scale, rng, hists, stats):
             for _ in range((3 if q else 40) * scale):
                 hists.append(jg.hash_stress_history(rng))
                 stats["hash-map storages under parallel restricted access"] += 1
+        if pid in ("C07", "C06"):
+            for _ in range((4 if q else 40) * scale):
+                hists.append(jg.anti_block_history(rng))
+                stats["negated storage with a component in every word of a 4096-index block"] += 1
         foci = {"C06": [("join", 5), ("restrict", 1), ("changeset", 1), ("par", 1)],
                 "C07": [("par", 1)], "C13": [("restrict", 1)], "C16": [("changeset", 1)]}[pid]
         total = (360 if q else 5000) * scale
